@@ -1,0 +1,49 @@
+//go:build verif
+
+package bmc
+
+import (
+	"context"
+	"net"
+	"time"
+
+	"github.com/gebn/bmc/pkg/ipmi"
+
+	"github.com/cenkalti/backoff/v4"
+)
+
+type VerifSendFunc func(ctx context.Context, b []byte) ([]byte, error)
+
+type verifTransport struct {
+	send  VerifSendFunc
+	close func() error
+}
+
+func (t *verifTransport) Address() net.Addr {
+	return &net.UDPAddr{IP: net.IPv4(127, 0, 0, 1), Port: 623}
+}
+func (t *verifTransport) Send(ctx context.Context, b []byte) ([]byte, error) {
+	return t.send(ctx, b)
+}
+func (t *verifTransport) Close() error {
+	if t.close != nil {
+		return t.close()
+	}
+	return nil
+}
+
+// VerifNewV2SessionlessTransport mirrors DialV2 over a caller-supplied transport.
+func VerifNewV2SessionlessTransport(send VerifSendFunc, timeout time.Duration, b backoff.BackOff) *V2SessionlessTransport {
+	v2ConnectionOpenAttempts.Inc()
+	v2ConnectionsOpen.Inc()
+	t := newV2SessionlessTransport(&verifTransport{send: send}, &dialConfig{timeout: timeout})
+	if b != nil {
+		t.V2Sessionless.backoff = b
+	}
+	return t
+}
+
+// VerifParseCipherSuiteRecordData exposes parseCipherSuiteRecordData.
+func VerifParseCipherSuiteRecordData(joined []byte) ([]ipmi.CipherSuiteRecord, error) {
+	return parseCipherSuiteRecordData(joined)
+}
